@@ -1,6 +1,7 @@
 import Tickit.Model.LifeTop
 import Tickit.Model.TermBuf
 import Tickit.Model.TermPen
+import Tickit.Gen.ModeLayout
 /-
   Property C08, fifth part of the model: the output side of the main terminal, driven through the REAL xterm driver.
 
@@ -38,6 +39,9 @@ structure OutSt where
   cache : TermPen.Pen := {}
   /-- `xd->cap.rgb8`, `xd->cap.csi_sub_colon` -/
   caps : TermPen.Caps := ⟨false, false⟩
+  /-- `xd->initialised.rgb8`: the program has set `xterm.cap_rgb8` itself (a later DECRQSS report leaves it alone when
+      the source has that guard: `Gen.ModeLayout.rgb8Guarded`, read from `on_decrqss`) -/
+  rgb8Forced : Bool := false
   /-- this model knows what is pending and what the cached pen is -/
   known : Bool := true
 deriving Repr
@@ -141,8 +145,10 @@ def ystep (tc : TCfg) (o : OTop) : YOp → Out (OTop × String)
       let (top, _) ← xstep tc o.top (.tpush [])
       let caps : TermPen.Caps :=
         { colon := o.o.caps.colon || colon
-          rgb8 := if viaCtl then rgb8 else (o.o.caps.rgb8 || rgb8) }
-      pure ({ top := top, o := { o.o with caps := caps } },
+          rgb8 := if viaCtl then rgb8
+                  else if Gen.ModeLayout.rgb8Guarded && o.o.rgb8Forced then o.o.caps.rgb8
+                  else (o.o.caps.rgb8 || rgb8) }
+      pure ({ top := top, o := { o.o with caps := caps, rgb8Forced := o.o.rgb8Forced || viaCtl } },
         s!"ok rgb8={if caps.rgb8 then 1 else 0} colon={if caps.colon then 1 else 0}")
   | .tsetpen set pen =>
     if !outUsable o then pure (o, "skip")
